@@ -1,12 +1,12 @@
 package main
 
 import (
-	"sort"
-	"regexp"
 	"encoding/json"
 	"fmt"
 	"os"
 	"path/filepath"
+	"regexp"
+	"sort"
 	"strings"
 
 	"golang.org/x/tools/go/ssa"
@@ -28,6 +28,7 @@ func init() {
 func c18m(c *Ctx) {
 	var cat struct {
 		Messages map[string]int      `json:"messages"` // message template -> number of sites reviewed
+		Guards   map[string][]string `json:"guards"`   // message template -> for each site, the kinds of fact (EMPTY, MISS, ON:<option>, …) known to hold when the rejection is reached
 		Kinds    map[string][]string `json:"kinds"`    // message template -> for each site, the token kinds the current / next token is known NOT to be when the rejection is reached
 	}
 	b, err := os.ReadFile(filepath.Join(verifDirGlobal, "rejections.json"))
@@ -38,6 +39,8 @@ func c18m(c *Ctx) {
 	known := cat.Messages
 	seen := map[string]int{}
 	sigs := map[string][]string{}
+	guardsSeen := map[string][]string{}
+	guardPos := map[string][]string{}
 	n := 0
 	var fns []*ssa.Function
 	for _, pkg := range []string{"lexer", "parser", "emitter"} {
@@ -133,6 +136,42 @@ func c18m(c *Ctx) {
 				sig := strings.Join(ks, ",")
 				sigs[tmpl] = append(sigs[tmpl], sig)
 			}
+			// ... and under which other conditions: what else is known to hold where the rejection
+			// is raised — something is empty, a lookup failed or succeeded, an option is on. The
+			// facts are kept as kinds of fact, not as terms (terms change with every refactoring):
+			// a rejection that is reached with fewer such facts being known — `len(x) == 0` widened
+			// to `<= 1`, a second reason joined with `||` — turns away inputs it used to let through.
+			{
+				factsAt := func(f *ssa.Function, in ssa.Instruction) string {
+					var gs []string
+					for _, l := range c.mustLits(f, in.Block()) {
+						if g := guardClass(verRe.ReplaceAllString(l, "")); g != "" {
+							gs = append(gs, g)
+						}
+					}
+					sort.Strings(gs)
+					return strings.Join(gs, ",")
+				}
+				// a straight-line helper that only makes the error (`newMissingCaseError(tok, a, b)`)
+				// decides nothing: the rejection is raised where the helper is called
+				var callers []ssa.CallInstruction
+				if len(fn.Blocks) == 1 && fn.Signature.Results().Len() == 1 && isErrorType(fn.Signature.Results().At(0).Type()) {
+					for _, cs := range c.W.callsTo(fn) {
+						if !isTestFunc(c.W, cs.Parent()) {
+							callers = append(callers, cs)
+						}
+					}
+				}
+				if len(callers) > 0 {
+					for _, cs := range callers {
+						guardsSeen[tmpl] = append(guardsSeen[tmpl], factsAt(cs.Parent(), cs))
+						guardPos[tmpl] = append(guardPos[tmpl], c.W.Pos(cs.Pos()))
+					}
+				} else {
+					guardsSeen[tmpl] = append(guardsSeen[tmpl], factsAt(fn, ci))
+					guardPos[tmpl] = append(guardPos[tmpl], c.W.Pos(ci.Pos()))
+				}
+			}
 			// several reviewed messages that differ in a constant word may be produced by one
 			// site with that word as an operand (`invalid %s '%s'` for maxLineLength, numLines,
 			// …): the template then generalises messages of the catalogue and brings no new one
@@ -189,11 +228,76 @@ func c18m(c *Ctx) {
 		}
 		c.Check(len(bad) == 0, "rejection-kinds["+tmpl+"]", "-", "raised for the reviewed token kinds", fmt.Sprintf("the message %q is now raised where the token at hand is none of %v; reviewed: %v — a kind that used to be accepted there is turned away", tmpl, bad, w))
 	}
+	// the same for the other facts known at each reviewed message (multiset inclusion, site by site)
+	for tmpl, want := range cat.Guards {
+		got := append([]string{}, guardsSeen[tmpl]...)
+		if len(got) == 0 {
+			continue
+		}
+		used := make([]bool, len(want))
+		var bad []string
+		at := "-"
+		for k, g := range got {
+			ok := false
+			for i, x := range want {
+				if !used[i] && multisetSubset(x, g) {
+					used[i], ok = true, true
+					break
+				}
+			}
+			if !ok {
+				bad = append(bad, "["+g+"]")
+				at = guardPos[tmpl][k]
+			}
+		}
+		c.Check(len(bad) == 0, "rejection-guards["+tmpl+"]", at, "raised under the reviewed facts", fmt.Sprintf("the message %q is now raised where only %v is known; reviewed: %v — the rejection is reached for inputs that used to pass it (a test was widened, or a second reason was joined to it)", tmpl, bad, want))
+	}
 	if os.Getenv("PSLINT_GEN_REJECTIONS") != "" {
-		out, _ := json.MarshalIndent(map[string]interface{}{"comment": "reviewed rejection messages of lexer, parser and emitter (message template -> number of sites); generated once from the reviewed tree with PSLINT_GEN_REJECTIONS=<file> pslint -prop C18, extended only after review", "messages": seen, "kinds": cat.Kinds, "kinds_seen": sigs}, "", " ")
+		out, _ := json.MarshalIndent(map[string]interface{}{"comment": "reviewed rejection messages of lexer, parser and emitter (message template -> number of sites); generated once from the reviewed tree with PSLINT_GEN_REJECTIONS=<file> pslint -prop C18, extended only after review", "messages": seen, "kinds": cat.Kinds, "kinds_seen": sigs, "guards": cat.Guards, "guards_seen": guardsSeen}, "", " ")
 		os.WriteFile(os.Getenv("PSLINT_GEN_REJECTIONS"), out, 0o644)
 	}
 	c.Check(n >= 60, "rejection-sites", "-", fmt.Sprintf("%d rejection sites with %d distinct messages", n, len(seen)), fmt.Sprintf("only %d rejection sites found", n))
+}
+
+// guardClass abstracts a must-literal into the kind of fact it states: EMPTY / NONEMPTY (a length
+// compared with zero, a Builder's Len, a string compared with ""), HIT / MISS (a map lookup),
+// ON:<field> / OFF:<field> (a boolean option of the parser). Everything else — token kinds (the
+// "kinds" clause), error and nil tests, loop bounds — gives "".
+var (
+	gNonEmptyRe  = regexp.MustCompile(`^([-+])\(0 < builtin:len\(.*\)\)$`)
+	gLenZeroRe   = regexp.MustCompile(`^([-+])\(\(\*strings\.Builder\)\.Len\(.*\)(@\d+)? == 0\)$`)
+	gStrEmptyRe  = regexp.MustCompile(`^([-+])\(.* == ""\)$`)
+	gLookupRe    = regexp.MustCompile(`^([-+])(?:\(\*[\w.]+\)\.)?[^( ][^ ]*\[.*\](#1)?$`)
+	gLoopBoundRe = regexp.MustCompile(`^[-+]\(phi\([^)]*\)(#\d+)?(\+1)? < builtin:len\(`)
+	gOptionRe    = regexp.MustCompile(`^([-+])\$0\.([A-Za-z]\w*)$`)
+)
+
+func guardClass(l string) string {
+	if gLoopBoundRe.MatchString(l) || strings.HasPrefix(l[1:], "assert<") {
+		return ""
+	}
+	pick := func(m []string, pos, neg string) string {
+		if m[1] == "+" {
+			return pos
+		}
+		return neg
+	}
+	if m := gNonEmptyRe.FindStringSubmatch(l); m != nil {
+		return pick(m, "NONEMPTY", "EMPTY")
+	}
+	if m := gLenZeroRe.FindStringSubmatch(l); m != nil {
+		return pick(m, "EMPTY", "NONEMPTY")
+	}
+	if m := gStrEmptyRe.FindStringSubmatch(l); m != nil {
+		return pick(m, "EMPTY", "NONEMPTY")
+	}
+	if m := gOptionRe.FindStringSubmatch(l); m != nil {
+		return pick(m, "ON:", "OFF:") + m[2]
+	}
+	if m := gLookupRe.FindStringSubmatch(l); m != nil {
+		return pick(m, "HIT", "MISS")
+	}
+	return ""
 }
 
 var notKindRe = regexp.MustCompile(`^-\(\$0\.(cur|peek\d?)Token\.Type == "([^"]*)"\)$`)
@@ -211,6 +315,24 @@ func kindsSubset(a, b string) bool {
 		if !in[k] {
 			return false
 		}
+	}
+	return true
+}
+
+// multisetSubset: the comma-separated multiset a is contained in b.
+func multisetSubset(a, b string) bool {
+	if a == "" {
+		return true
+	}
+	have := map[string]int{}
+	for _, k := range strings.Split(b, ",") {
+		have[k]++
+	}
+	for _, k := range strings.Split(a, ",") {
+		if have[k] == 0 {
+			return false
+		}
+		have[k]--
 	}
 	return true
 }
